@@ -21,7 +21,7 @@ ASSUMPTIONS = c02.ASSUMPTIONS + ["an include directive occupies its own line (a 
 LC_TEXTS = ["c", "a comment", "x; y", "{ brace", "} close", "say 'hi'", '"q"', "$var", "https://example.com/x", "k v;", "( 1 2 )", "é ж",
             "back\\slash", "\\1", "\\g<0>", "a\\nb", "", " ", "100%", "#include 'x'", "tab\there", "*", "**/", "/*"]
 BC_TEXTS = [" c ", "a; b", " { } ", "*", " 'q' ", ' "d" ', " $x ", "\n multi\n line \n", " see http://x.y ", "", " back\\slash ", " \\1 ",
-            " C++ ", "** stars **", " k v; ", " page 1 \x0c page 2 ", " a\x0bb ", " x\u2028y ", " u\x85v ", " don't ", ' 5" ']
+            " C++ ", "\n *  -*- C++ -*-\n *  project header\n ", "\n  my own header\n  (C++ syntax)\n", "** stars **", " k v; ", " page 1 \x0c page 2 ", " a\x0bb ", " x\u2028y ", " u\x85v ", " don't ", ' 5" ']
 WS_TWINS = [(" - case", "   - case"), (" x = 1", " x  =  1"), (" units: m s ", " units:  m   s "), (" a\tb", " a b"), ("t  1", "t 1")]
 INCLUDES = ["inc1", "sub/inc2", "./inc1", "../up", "missing", "sub\\win", "with space", "d.ir/f.dict", "é/f"]
 
